@@ -46,6 +46,9 @@ def plan(tier: str, seed: int, scale: float = 1.0, max_n_quick=14, max_n_thoroug
         ex = max(20, int(400 * scale))
         for s in range(16):
             specs.append(("hyp", seed, s, ex, max_n_quick))
+        for s in range(16):
+            # extra weight on the two structure-building modes: loop nests in nested contexts, composed graphs
+            specs.append(("hypmode", seed, s, max(10, int(120 * scale)), max_n_quick, ("nests", "compose")[s % 2]))
         if corpus:
             for s in range(8):
                 specs.append(("corpus", s, 8, max(10, int(100 * scale))))
@@ -63,6 +66,8 @@ def plan(tier: str, seed: int, scale: float = 1.0, max_n_quick=14, max_n_thoroug
         ex = max(50, int(600 * scale))
         for s in range(32):
             specs.append(("hyp", seed, s, ex, max_n_thorough))
+        for s in range(32):
+            specs.append(("hypmode", seed, s, max(30, int(900 * scale)), max_n_thorough, ("nests", "compose")[s % 2]))
         if corpus:
             for s in range(16):
                 specs.append(("corpus", s, 16, 10**9))
@@ -100,10 +105,15 @@ def iterate(spec, visit):
             for j in range(relabels):
                 style = ("perm", "alpha", "bytecode")[j % 3]
                 visit(g, gg.restyle(g, style, _perm(n, h64((seed, k, j)))), f"canon{n}")
-    elif kind == "hyp":
-        _, seed, shard, examples, max_n = spec
+    elif kind in ("hyp", "hypmode"):
+        if kind == "hypmode":
+            _, seed, shard, examples, max_n, mode = spec
+            modes = [mode]
+        else:
+            _, seed, shard, examples, max_n = spec
+            modes = gg.MODES
 
-        @hseed(h64(("sweep", seed, shard)))
+        @hseed(h64(("sweep", seed, shard, tuple(modes) if kind == "hypmode" else None)))
         @settings(
             max_examples=examples,
             database=None,
@@ -113,7 +123,7 @@ def iterate(spec, visit):
             phases=[Phase.generate],
             suppress_health_check=[HealthCheck.too_slow, HealthCheck.data_too_large],
         )
-        @given(g=gg.closed_cfgs(max_n=max_n), style=st.sampled_from(gg.STYLES), pk=st.integers(0, 2**20))
+        @given(g=gg.closed_cfgs(max_n=max_n, modes=modes), style=st.sampled_from(gg.STYLES), pk=st.integers(0, 2**20))
         def t(g, style, pk):
             named = gg.restyle(g, style, _perm(len(g), pk) if style in ("perm", "alpha", "gen", "zpad") else None)
             visit(g, named, "hyp")
